@@ -20,7 +20,7 @@ NT_RULE = ('1-8 formation reactions sharing gas reference species, norm factors 
            'branch; distinct = canonical JSON')
 REQUIRED_ORACLES = ['D1', 'D2', 'D3']
 REQUIRED_CLASSES = ['scan:1D', 'scan:2D', 'var:T', 'var:P', 'var:species_kwargs', 'units:yes', 'units:no',
-                    'stable:changes', 'norms:int', 'norms:float', 'span:max_before_min', 'span:max_after_min', 'span:with_ts', 'span:network',
+                    'stable:changes', 'norms:int', 'norms:float', 'span:max_before_min', 'span:max_after_min', 'span:with_ts', 'span:network', 'span:chain', 'span:cycle', 'span:unchained', 'reactions:duplicate',
                     'grid:1', 'reactions:1']
 REQUIRED_PROBES = ['PhaseDiagram.get_GoRT_1D', 'PhaseDiagram.get_GoRT_2D', 'Reactions.get_E_span',
                    'Network.get_E_span']
@@ -48,6 +48,11 @@ def _gen_diagram(rng):
                                                      for g in rng.sample(GAS, rng.randint(1, 2))]
         rxns.append({'reactants': react, 'products': [[prod, 1]]})
         norms.append(round(rng.uniform(0.1, 10), 3))
+    # the same formation reaction listed twice with different normalisation (e.g. per atom and per cell)
+    dup = nrx >= 1 and rng.random() < 0.2
+    if dup:
+        rxns.append({'reactants': [list(x) for x in rxns[0]['reactants']], 'products': [list(x) for x in rxns[0]['products']]})
+        norms.append(round(norms[0] * rng.choice([0.5, 2.0, 3.0]), 3))
     # normalisation factors are often integers (atoms or sites per cell)
     norm_kind = rng.choice(['float', 'float', 'int'])
     if norm_kind == 'int':
@@ -68,7 +73,7 @@ def _gen_diagram(rng):
     if 'P' not in kinds and rng.random() < 0.5:
         fixed['P'] = S.logu(rng, 1e-3, 1e2, 4)
     return {'kind': 'diagram', 'species': species, 'reactions': rxns, 'norms': norms,
-            'norms_as': rng.choice(['list', 'array']), 'norm_kind': norm_kind,
+            'norms_as': rng.choice(['list', 'array']), 'norm_kind': norm_kind, 'duplicate_reaction': dup,
             'axes': [[n, v] for n, v in axes], 'fixed': fixed, 'units': rng.choice([None, None] + UNITS)}
 
 
@@ -87,7 +92,17 @@ def _gen_span(rng):
         return names
     states = [state('I%d' % i, rng.choice([1, 1, 2])) for i in range(n + 1)]
     ts = [state('TS%d' % i, 1) if rng.random() < 0.6 else None for i in range(n)]
-    return {'kind': 'span', 'species': species, 'states': states, 'ts': ts,
+    shape = rng.choice(['chain', 'chain', 'cycle', 'unchained'])
+    if shape == 'cycle' and n >= 2:
+        states[-1] = [list(x) for x in states[0]]         # a catalytic cycle: the path ends where it started
+    elif shape == 'cycle':
+        shape = 'chain'
+    consumed = None
+    if shape == 'unchained':
+        # step i+1 consumes slightly different amounts than step i produced (coefficients differ beyond the
+        # second decimal): consecutive states are different states
+        consumed = [[[nm, round(v * 1.0101, 4)] for nm, v in st] for st in states[1:-1]]
+    return {'kind': 'span', 'species': species, 'states': states, 'ts': ts, 'shape': shape, 'consumed': consumed,
             'cond': {'T': round(rng.uniform(300, 2500), 2), 'P': S.logu(rng, 1e-2, 1e1, 4)},
             # the same objects are evaluated again at other conditions (stale caches, state kept between calls)
             'cond2': {'T': round(rng.uniform(300, 2500), 2), 'P': S.logu(rng, 1e-2, 1e1, 4)},
@@ -148,6 +163,8 @@ def _diagram(spec, ctx):
             ctx.cls('grid:1')
     if len(rxns) == 1:
         ctx.cls('reactions:1')
+    if spec.get('duplicate_reaction'):
+        ctx.cls('reactions:duplicate')
     mech = {'dim': dim, 'units': bool(units)}
 
     def own(i, point):
@@ -238,7 +255,13 @@ def _span(spec, ctx):
     from pmutt.reaction import Reactions
     from pmutt import constants as c
     states, ts = spec['states'], spec['ts']
-    rx_specs = [{'reactants': states[i], 'products': states[i + 1], 'ts': ts[i]} for i in range(len(ts))]
+    shape = spec.get('shape', 'chain')
+    consumed = spec.get('consumed')
+    ctx.cls('span:' + shape)
+    rx_specs = []
+    for i in range(len(ts)):
+        react = states[i] if not (consumed and i >= 1) else consumed[i - 1]
+        rx_specs.append({'reactants': react, 'products': states[i + 1], 'ts': ts[i]})
     rxns, objs = _build_rxns(spec, rx_specs)
     units = spec['units']
     reactions_obj = Reactions(reactions=rxns)
@@ -253,9 +276,13 @@ def _span(spec, ctx):
             net = None
     path = [states[0]]
     for i in range(len(ts)):
+        if consumed and i >= 1:
+            path.append(consumed[i - 1])       # a different state from what step i-1 produced
         if ts[i]:
             path.append(ts[i])
         path.append(states[i + 1])
+    if shape == 'unchained':
+        net = None                              # not a connected pathway
     node_path = None
     if net is not None:
         ctx.cls('span:network')
